@@ -167,6 +167,9 @@ def scenarios(tier, seed):
             return [["rot", "q", "Z", ["tpl", "a"], 0], ["m", "q", ["f", "A", 1], True], ["add", ["f", "A", 0], ["k"], None]], ["a"]
         if kind == "rot_cnot":
             return [["q", "p"], ["g", "p", "H"], ["rot", "q", "X", ["tpl", "a"], 2], ["cnot", "p", "q"]], ["a"]
+        if kind == "rot_if_labelname":
+            # a template that happens to be called like a label the builder generates for the if-block
+            return [["if", "eq", ["f", "A", 0], ["k"], "ctx", [["rot", "q", "X", ["tpl", "IF_EXIT"], 1]]], ["rot", "q", "Z", ["tpl", "LOOP_EXIT"], 2]], ["IF_EXIT", "LOOP_EXIT"]
         if kind == "rot_if":
             return [["if", "eq", ["f", "A", 0], ["k"], "ctx", [["rot", "q", "X", ["tpl", "a"], 1]]]], ["a"]
         raise KeyError(kind)
@@ -176,7 +179,7 @@ def scenarios(tier, seed):
     posts = {"none": [], "gate": [["g", "q", "X"]], "measure": [["m", "q", ["newf", "pp"], True]], "add": [["add", ["f", "A", 1], ["k"], None]],
              "array": [["arr", "P", ["k", "k"]]], "measureR": [["m", "q", ["newr", "pr"], True]]}
     out = []
-    kinds = ["rot1", "rot2", "rot2rev", "rot_meas", "rot_measR", "rot_measA", "rot_cnot", "rot_if"]
+    kinds = ["rot1", "rot2", "rot2rev", "rot_meas", "rot_measR", "rot_measA", "rot_cnot", "rot_if", "rot_if_labelname"]
     for kind in kinds:
         ops, names = tpl_ops(kind)
         for pre_flush in (False, True):
